@@ -58,7 +58,7 @@ Print Assumptions c07_partial.
 (* the same after any history (renegotiation), where the distinctness of the
    transceiver mids is the invariant of C06 *)
 Theorem c07_partial_history : forall ops d,
-  remote_ok ops -> numbering_ok_all ops ->
+  remote_ok ops -> nowrap_all ops ->
   sig (run ops) = Stable ->
   rdesc_ok d -> offer_usable d -> kinds_compatible (trs (run ops)) d ->
   codecs_ok (fst (set_remote (run ops) TOffer d)) ->
